@@ -37,6 +37,7 @@ CONSTANTS
   Pads,            \* stream padding lengths picked from (bytes)
   Trailings,       \* kinds of trailing bytes after the last stream: subset of {"none","garbage"}
   Multis,          \* values of allow_multiple_streams explored: subset of BOOLEAN
+  VliBase,         \* base of the multibyte integers (128 in the format; small in model checking)
   IndexCountsHeader, EmptyInputWritesBlock, BlockLimitPerByte, MagicTestInverted, ReaderChecksIndex
 
 VARIABLES
@@ -58,7 +59,11 @@ Min(a, b) == IF a < b THEN a ELSE b
 \* xz-file-format 2.1.1.2
 CheckSize(id) == IF id = 0 THEN 0 ELSE IF id <= 3 THEN 4 ELSE IF id <= 6 THEN 8 ELSE IF id <= 9 THEN 16
                  ELSE IF id <= 12 THEN 32 ELSE 64
-VliLen(v) == IF v < 128 THEN 1 ELSE IF v < 16384 THEN 2 ELSE IF v < 2097152 THEN 3 ELSE IF v < 268435456 THEN 4 ELSE 5
+\* length of a multibyte integer: digits of v in base VliBase. The format's base is 128 (7 bits per byte); model checking
+\* uses a small base so that the length classes of the record count and of the index records (1, 2, 3 bytes: 128 / 16384
+\* blocks, sizes crossing 128 / 16384 bytes) are reached with a handful of blocks and units.
+RECURSIVE VliLen(_)
+VliLen(v) == IF v < VliBase THEN 1 ELSE 1 + VliLen(v \div VliBase)
 
 RECURSIVE SumVli(_, _)
 SumVli(rs, i) == IF i > Len(rs) THEN 0 ELSE VliLen(rs[i][1]) + VliLen(rs[i][2]) + SumVli(rs, i + 1)
@@ -208,6 +213,7 @@ RBlock ==
 \* and the footer's CRC / flags / magic.
 IndexOk(p) ==
   /\ file[p].n = rd.blocks /\ file[p].crc_ok /\ file[p].pad_zero
+  /\ file[p].pad = Pad4(IndexBody(file[p].recs))       \* Index::parse recomputes the byte count from the values it read
   /\ \A i \in 1..Len(file[p].recs) : file[p].recs[i][1] # 0
   /\ (ReaderChecksIndex => file[p].recs = rd.brecs)
   /\ Kind(p + 1) = "Footer" /\ file[p + 1].crc_ok /\ file[p + 1].flags_eq /\ file[p + 1].magic_ok
@@ -291,6 +297,12 @@ BlockUs(f, i) == IF i > Len(f) THEN <<>>
                  ELSE IF f[i].k = "Data" THEN <<f[i].usize>> \o BlockUs(f, i + 1) ELSE BlockUs(f, i + 1)
 RECURSIVE SumSeq(_, _)
 SumSeq(s, i) == IF i > Len(s) THEN 0 ELSE s[i] + SumSeq(s, i + 1)
+
+\* encoding-length classes of a finished stream's index: <<record count, longest unpadded size, longest uncompressed size>>
+RECURSIVE MaxVli(_, _, _)
+MaxVli(rs, k, i) == IF i > Len(rs) THEN 1 ELSE Max(VliLen(rs[i][k]), MaxVli(rs, k, i + 1))
+IndexRecsOf(f) == LET I == {i \in 1..Len(f) : f[i].k = "Index"} IN IF I = {} THEN <<>> ELSE f[CHOOSE i \in I : TRUE].recs
+VliClasses(f) == <<VliLen(Len(IndexRecsOf(f))), MaxVli(IndexRecsOf(f), 1, 1), MaxVli(IndexRecsOf(f), 2, 1)>>
 
 \* ---------------------------------------------------------------------------------------- properties
 \* (the stream-level properties are evaluated in the state right after Finish, phase = "env": `streams` only changes there)
